@@ -6,14 +6,28 @@ export GOFLAGS=-mod=mod GOPROXY=off GOSUMDB=off GOTOOLCHAIN=local
 ROOT="$(pwd)"
 export VERIF_ROOT="$ROOT"
 mkdir -p "$ROOT/.work/bin"
+# VERIF_REPO=<dir> checks a scratch copy of the repository instead of /repo (used to validate the
+# monitors against seeded changes and reverted fixes without touching /repo); binaries and work
+# files then live under .work/alt-<hash> so that they do not disturb runs against /repo.
+MODFLAG=""
+BIN="$ROOT/.work/bin"
+if [ -n "${VERIF_REPO:-}" ]; then
+  tag=$(echo "$VERIF_REPO" | md5sum | cut -c1-8)
+  BIN="$ROOT/.work/alt-$tag/bin"
+  mkdir -p "$BIN"
+  sed "s|=> /repo|=> $VERIF_REPO|" "$ROOT/harness/go.mod" > "$ROOT/.work/alt-$tag/go.mod"
+  cp "$ROOT/harness/go.sum" "$ROOT/.work/alt-$tag/go.sum"
+  MODFLAG="-modfile=$ROOT/.work/alt-$tag/go.mod"
+  export VERIF_WORK="$ROOT/.work/alt-$tag"
+fi
 build() {
-  (cd "$ROOT/harness" && go build -race -tags verif -o "$ROOT/.work/bin/vcheck" ./cmd/vcheck) || { echo "BROKEN: build (race) failed"; exit 2; }
-  (cd "$ROOT/harness" && go build -tags verif -o "$ROOT/.work/bin/vcheck-norace" ./cmd/vcheck) || { echo "BROKEN: build (norace) failed"; exit 2; }
+  (cd "$ROOT/harness" && go build $MODFLAG -race -tags verif -o "$BIN/vcheck" ./cmd/vcheck) || { echo "BROKEN: build (race) failed"; exit 2; }
+  (cd "$ROOT/harness" && go build $MODFLAG -tags verif -o "$BIN/vcheck-norace" ./cmd/vcheck) || { echo "BROKEN: build (norace) failed"; exit 2; }
 }
 build
 case "${1:-}" in
   build) exit 0 ;;
-  replay) exec "$ROOT/.work/bin/vcheck" replay "$2" ;;
-  selftest) exec "$ROOT/.work/bin/vcheck" selftest ;;
-  *) exec "$ROOT/.work/bin/vcheck" check "$1" --tier "${2:-${VERIF_TIER:-quick}}" ;;
+  replay) exec "$BIN/vcheck" replay "$2" ;;
+  selftest) exec "$BIN/vcheck" selftest ;;
+  *) exec "$BIN/vcheck" check "$1" --tier "${2:-${VERIF_TIER:-quick}}" ;;
 esac
